@@ -17,7 +17,7 @@ from ..symreal.core import S, symarr, vjp, new_session, evalarr
 from ..symreal.discharge import prove_equal
 from ..symreal.pool import run_catalogue
 
-ALPHABET = ["B0", "B1", "B2", "B3", "B4", "B5", "B6", "B7", "B8", "REG_d", "REFUSED_last", "BW_last", "BW_prev", "BW_int", "BW_leaf_a", "BWR_last", "BWR_int", "RET_int", "RET_last", "Z_a", "Z_mod", "Z_opt"]
+ALPHABET = ["B0", "B1", "B2", "B3", "B4", "B5", "B6", "B7", "B8", "REG_d", "REFUSED_last", "BW_last", "BW_prev", "BW_int", "BW_leaf_a", "BWG_last", "BWR_last", "BWR_int", "RET_int", "RET_last", "Z_a", "Z_mod", "Z_opt"]
 DESCR = {
     "B0": "r = a * b", "B1": "m = a + b; r = m * a", "B2": "r = sum(a * a)", "B3": "r = <previous result> * b  (reuse of an earlier result)", "B4": "m = exp(b); r = m * c", "B5": "u = unbind(a); r = u[0] * b + u[1] + a   (multi-output op whose operand is also used directly)",
     "B7": "r = a * d   (d: a parameter that is registered in a nested module only by event REG_d)", "REG_d": "module.inner.pd = d   (registration after the module may already have been queried)",
@@ -25,7 +25,7 @@ DESCR = {
     "REFUSED_last": "backward(last result, g of the WRONG shape): refused, and nothing may be left behind that disturbs later calls",
     "B6": "r = cross_entropy(stack([a, b]), labels [0, 1])   (a fused loss whose backward re-uses values of its forward)",
     "BW_last": "backward(last result, fresh g)", "BW_prev": "backward(previous result, fresh g)", "BW_int": "backward(last interior node m, fresh g)",
-    "BW_leaf_a": "a.backward(fresh g)", "BWR_last": "with retain_grads(): backward(last result)", "BWR_int": "with retain_grads(): backward(last interior)",
+    "BW_leaf_a": "a.backward(fresh g)", "BWG_last": "<last result>.backward(<previous result>.grad)  (the gradient an earlier sweep left on a tensor, passed on as it is)", "BWR_last": "with retain_grads(): backward(last result)", "BWR_int": "with retain_grads(): backward(last interior)",
     "RET_int": "m.retain_grad()", "RET_last": "<last result>.retain_grad()  (a tensor that is later used as a root)", "Z_a": "a.zero_()", "Z_mod": "Module.zero_grad()", "Z_opt": "Optimizer.zero_grad()",
 }
 
@@ -88,12 +88,14 @@ class World:
             return len(self.results) >= 1
         if ev == "BW_prev":
             return len(self.results) >= 2
+        if ev == "BWG_last":
+            return len(self.results) >= 2 and self.results[-2]._grad is not None and tuple(self.results[-2].shape) == tuple(self.results[-1].shape)
         if ev in ("BW_int", "BWR_int", "RET_int"):
             return len(self.interiors) >= 1
         return True
 
     def target(self, ev):
-        if ev in ("BW_last", "BWR_last", "RET_last"):
+        if ev in ("BW_last", "BWR_last", "RET_last", "BWG_last"):
             return self.results[-1]
         if ev == "BW_prev":
             return self.results[-2]
@@ -133,6 +135,10 @@ class World:
         elif ev in ("BW_last", "BW_prev", "BW_int", "BW_leaf_a"):
             t = self.target(ev)
             t.backward(self.fresh_g(t.shape))
+        elif ev == "BWG_last":
+            g = self.results[-2].grad           # what the user gets from the attribute, handed on unchanged
+            self.gs.append((g, g.data, np.asarray(g.data, dtype=object).copy() if g.data.dtype == object else g.data.copy()))
+            self.results[-1].backward(g)
         elif ev in ("BWR_last", "BWR_int"):
             t = self.target(ev)
             g = self.fresh_g(t.shape)
@@ -246,7 +252,7 @@ class HistoryCase:
                     info["under_retain_grads"] = ev.startswith("BWR")
                     # SPEC update
                     ng = w.ng
-                    gsym = symarr("g%d" % ng, tgt.shape)
+                    gsym = symarr("g%d" % ng, tgt.shape) if ev != "BWG_last" else np.asarray(w.results[-2]._grad, dtype=object).copy()
                     out_terms = np.asarray(tgt.data, dtype=object)
                     for k, t in w.leaves.items():
                         if id(t) in reach and t.requires_grad:
@@ -472,6 +478,12 @@ def histories(tier, seed):
         for tail in (("BW_last",), ("BW_last", "BW_last"), ("BWR_last", "BW_int") if b in ("B1", "B4") else ("BW_last", "Z_a", "BW_last")):
             hs.append((b, "REFUSED_last") + tail)
             hs.append((b, "BW_last", "REFUSED_last") + tail)
+    # the gradient an earlier sweep left on a result is passed on, as it is, as the upstream gradient of a sweep through a graph that CONTAINS that result
+    for b in ("B0", "B1", "B4"):
+        for mid in (("BW_last",), ("BWR_last",), ("RET_last", "BW_last")):
+            hs.append((b,) + mid + ("B3", "BWG_last"))
+            hs.append((b,) + mid + ("B3", "BWG_last", "BW_last"))
+        hs.append((b, "RET_last", "B3", "BW_last", "BWG_last"))
     # late registration: the module is queried (zero_grad) before and after a parameter is attached to a nested module
     for pre in (("Z_mod",), ("B7", "BW_last", "Z_mod"), ()):
         for post in (("B7", "BW_last", "Z_mod", "B7", "BW_last"), ("B7", "BW_last", "Z_mod"), ("B7", "BW_last", "Z_opt", "BW_last", "Z_mod")):
@@ -483,7 +495,7 @@ def histories(tier, seed):
         for h in itertools.product(alpha0, repeat=n):
             if h[0] in ("B0", "B1", "B2", "B3", "B4", "BW_leaf_a", "Z_a", "Z_mod", "Z_opt") and any(e.startswith("BW") for e in h) and (n < 4 or rng.random() < 0.2):
                 zero_d.append(h)
-    for h in [("BW_leaf_a", "B0", "BW_last", "Z_a", "BW_last"), ("B0", "BW_last", "BW_leaf_a", "Z_opt", "B0", "BW_last"), ("B2", "BW_last", "BW_leaf_a", "Z_mod", "BW_last")]:
+    for h in [("B0", "BW_last", "B3", "BWG_last"), ("B1", "RET_last", "B3", "BW_last", "BWG_last"), ("BW_leaf_a", "B0", "BW_last", "Z_a", "BW_last"), ("B0", "BW_last", "BW_leaf_a", "Z_opt", "B0", "BW_last"), ("B2", "BW_last", "BW_leaf_a", "Z_mod", "BW_last")]:
         zero_d.append(h)
     extra = 600 if tier == "quick" else 6000
     for _ in range(extra):
@@ -493,6 +505,49 @@ def histories(tier, seed):
             h.append(rng.choice(ALPHABET))
         hs.append(tuple(h))
     return [HistoryCase(h) for h in hs] + [HistoryCase(h, shape=()) for h in zero_d]
+
+
+def nonfinite_reset_part(run):
+    """Bounded, native: "the sum of the contributions since the leaf was LAST RESET" whatever the buffer held before the reset -- also inf / -inf / nan (an overflowed
+    step; the reals of the proof have no such values).  Every reset route x float32/float64 x leaf shapes (3,), (1,), (): gradient made non-finite by a backward call,
+    reset, one more backward call; the leaf must hold exactly the last contribution."""
+    import synapgrad as sg
+    from synapgrad.tensor import Tensor
+    from synapgrad.nn.modules import Module, Parameter
+    from synapgrad import optim
+
+    class Holder(Module):
+        def __init__(self, p):
+            super().__init__()
+            self.p = p
+
+        def forward(self, x):
+            return x
+    routes = {"Tensor.zero_": lambda p, m, o: p.zero_(), "Module.zero_grad": lambda p, m, o: m.zero_grad(), "SGD.zero_grad": lambda p, m, o: o["sgd"].zero_grad(),
+              "Adam.zero_grad": lambda p, m, o: o["adam"].zero_grad(), "AdamW.zero_grad": lambda p, m, o: o["adamw"].zero_grad()}
+    for (rname, reset), dt, shape, bad in itertools.product(routes.items(), (np.float32, np.float64), ((3,), (1,), ()), (np.inf, -np.inf, np.nan)):
+        vals = np.arange(1, 1 + int(np.prod(shape, dtype=int)), dtype=dt).reshape(shape) * dt(0.5)
+        p = Parameter(vals.copy(), requires_grad=True)
+        m = Holder(p)
+        o = {"sgd": optim.SGD([p], lr=0.1, momentum=0.9), "adam": optim.Adam([p], lr=0.1), "adamw": optim.AdamW([p], lr=0.1)}
+        run.rt(("nonfinite-reset", rname, np.dtype(dt).name, shape, repr(bad)))
+        key = {"reset": rname, "dtype": np.dtype(dt).name, "shape": list(shape), "stale_value": repr(bad)}
+        try:
+            with np.errstate(all="ignore"):
+                up = np.full(shape, bad, dtype=dt)
+                (p * 1.0).backward(Tensor(up))
+                if not np.all(~np.isfinite(np.asarray(p._grad))):
+                    run.error("non-finite reset part: could not produce a non-finite gradient (%s)" % key)
+                    continue
+                reset(p, m, o)
+                (p * p).backward(Tensor(np.ones(shape, dtype=dt)))
+                got = np.asarray(p._grad)
+        except Exception as e:
+            run.violation("%s.leaf_grad_is_sum_of_contributions_since_last_reset" % rname, "history backward(non-finite g); %s(); backward raised %s: %s" % (rname, type(e).__name__, e), key=key, replay=key)
+            continue
+        if got.shape != tuple(shape) or not np.array_equal(got, 2 * vals):
+            run.violation("%s.leaf_grad_is_sum_of_contributions_since_last_reset" % rname, "leaf %s %s: backward with upstream %r, then %s(), then d(p*p) with unit upstream: the leaf holds %s, "
+                          "the contribution since the reset is %s" % (np.dtype(dt).name, shape, bad, rname, got.tolist(), (2 * vals).tolist()), key=key, replay={**key, "got": repr(got.tolist())})
 
 
 def main(tier="quick", seed=0, procs=None, only=None):
@@ -506,4 +561,8 @@ def main(tier="quick", seed=0, procs=None, only=None):
     run.rule = "one case = one history; after every event: leaf._grad == ghost accumulator for every leaf, unreachable leaves untouched, all callers' gradient arrays unchanged"
     cases = histories(tier, seed)
     run_catalogue(run, cases, seed=seed, procs=procs)
+    try:
+        nonfinite_reset_part(run)
+    except Exception as e:
+        run.error("non-finite reset part failed", e)
     return run.finish()
